@@ -114,6 +114,24 @@ P('C06',
   thorough=dict(cases=4000000, max_size=4000, max_seconds=1500, fuzz=dict(seconds=240, jobs=8, max_len=4096)),
   )
 
+P('C07',
+  technique='property-based testing and fuzzing: harness-encoded PES/TS streams, metamorphic partition invariance (one call = pieces = coroutine), recovery oracle against the sent frames, ASan on exactly sized chunk buffers',
+  rule='stream = 3-12 frames (a frame in 1-3 PES packets) as PES or TS from the harness encoder with foreign stream ids / PIDs / adaptation-only / '
+       'null packets, cut into feed calls (single bytes .. 5000 bytes), optionally damaged (noise, removal, duplication, dropped TS packet, continuity, '
+       'TEI, scrambling) or fully random. Non-trivial: a cut inside a PES/TS header, or a frame spanning >= 2 feed calls, or damage; '
+       'distinct = hash of consumed choices.',
+  level_text='Generated-input search with explicit oracles: for every stream (valid, damaged or random) the frames delivered for one feed call, '
+             'for the same bytes in generated pieces, and through vbi_dvb_demux_cor must be identical (lines, services, payloads, PTS); for '
+             'encoded streams all frames after the first one following the damage (or the stream start) must be delivered exactly once and '
+             'unchanged and nothing delivered before them may be a repeated or reordered frame; every chunk lives in an exactly sized heap block so '
+             'that reads outside the caller buffer are ASan errors; hangs are caught by the watchdog. Sampling only.',
+  level_note='Trusted: models/dvb_model.h encoder as the source of valid streams (not the library mux); foreign payload bytes avoid start code emulation (bytes >= 2).',
+  design_ref='DESIGN.md section 2, C07',
+  states_termination=True,
+  quick=dict(cases=100000, max_size=6000, max_seconds=150),
+  thorough=dict(cases=3000000, max_size=6000, max_seconds=1500, fuzz=dict(seconds=300, jobs=12, max_len=6000)),
+  )
+
 NOT_YET = {}
 
 
